@@ -26,10 +26,13 @@ class Rng:
 
 
 NAMES = ["a", "b", "c", "col_1", "k y", "select", "x1", "é", "CURRENT_DATE", "from", "A1", "user_id",
-         "x", "B", "X", "cross", "Sort", "using", "distribute", "cluster", "left", "on", "as", "limit", "union", "null", "True", "1a", "a-b", "a#b", "x'1'", "0x1F", "b'0'", "--", "/*", ";", "(", "a,b", "="]
-TNAMES = ["t", "u", "orders", "k y", "w", "tbl_2", "b", "x", "cross", "using", "Sort", "select", "1t", "t-1"]
+         "x", "B", "X", "cross", "Sort", "using", "distribute", "cluster", "left", "on", "as", "limit", "union", "null", "True", "1a", "a-b", "a#b", "x'1'", "0x1F", "b'0'", "--", "/*", ";", "(", "a,b", "=",
+         # letters whose upper() / lower() leaves the alphabet or changes the length: ſ→S, ı→I, ﬁ→FI, ß→SS, İ→i̇, K (Kelvin)→k — a name test written with \w,
+         # isalpha(), upper() or lower() takes these for plain names or for keywords
+         "caſe", "exıſtſ", "ıſ", "ﬁrst", "straße", "İd", "\u212aey", "naïve_1", "ſum"]
+TNAMES = ["t", "u", "orders", "k y", "w", "tbl_2", "b", "x", "cross", "using", "Sort", "select", "1t", "t-1", "caſe", "ıſ", "İd", "uſıng"]
 LITS = ["1", "0", "42", "2.5", "'s'", "''", "'a''b'", "NULL", "TRUE", "false", "x'1F'", "b'01'", "\"d\"", "'x y'", "'--'", "';'"]
-FUNCS = ["f", "concat", "COALESCE", "my fn", "trim", "IF", "substring"]
+FUNCS = ["f", "concat", "COALESCE", "my fn", "trim", "IF", "substring", "caſe", "exıſtſ", "ſtraße", "fﬁ"]
 AGGS = ["COUNT", "sum", "Max", "AVG", "min"]
 
 
